@@ -111,6 +111,7 @@ func (r *Reconciler) Reconcile(ctx context.Context, request reconcile.Request) (
 		datadoghqv1alpha1.ExtendedDaemonSetNameLabelKey: request.Name,
 	}
 	listOpts := []client.ListOption{
+		client.InNamespace(request.Namespace),
 		&client.MatchingLabelsSelector{Selector: selector.AsSelectorPreValidated()},
 	}
 	err = r.client.List(context.TODO(), replicaSetList, listOpts...)
@@ -323,6 +324,7 @@ func (r *Reconciler) selectNodes(logger logr.Logger, daemonset *datadoghqv1alpha
 	podList := &corev1.PodList{}
 	podSelector := labels.Set{datadoghqv1alpha1.ExtendedDaemonSetNameLabelKey: daemonset.Name}
 	podListOptions := []client.ListOption{
+		client.InNamespace(daemonset.Namespace),
 		client.MatchingLabelsSelector{
 			Selector: podSelector.AsSelectorPreValidated(),
 		},
